@@ -4,7 +4,7 @@ From MV Require Import Base RotLemmas Record RecordLemmas Regex RegexLemmas Shap
      TotalLemmas Assembly AssemblyLemmas Pipeline PipelineLemmas Circle CircleLemmas Annot
      Py PyObj SrcEquivRegex SrcEquivRecord SrcEquivTyping SrcEquivAssembly.
 From MV.Gen Require Import Src.
-Open Scope Z_scope.
+Local Open Scope Z_scope.
 
 Lemma search_ok_inv items rec (pos : nat) endpos linear sm :
   0 <= endpos ->
